@@ -911,9 +911,15 @@ def random_cases(rng, n):
     return cs
 
 
+UNICODE_CORE = ["LETTER", "UPPERCASE_LETTER", "LOWERCASE_LETTER", "TITLECASE_LETTER", "CASED_LETTER", "NUMBER", "DECIMAL_NUMBER",
+                "PUNCTUATION", "SYMBOL", "SEPARATOR", "OTHER", "UNASSIGNED", "WHITE_SPACE", "ALPHABETIC", "UPPERCASE", "LOWERCASE",
+                "LATIN", "GREEK", "HAN", "COMMON"]
+
+
 def unicode_cases(rng, names, n_single, n_mix):
     cs = []
-    pick = names if n_single >= len(names) else rng.sample(names, n_single)
+    core = [n for n in UNICODE_CORE if n in names]
+    pick = names if n_single >= len(names) else core + rng.sample([n for n in names if n not in core], max(0, n_single - len(core)))
     for nm in pick:
         cs.append({"family": "unicode", "kind": "single", "atoms": [["builtin", nm]]})
     for _ in range(n_mix):
@@ -1016,8 +1022,13 @@ def _class_worker(args):
         except Exception:  # noqa: BLE001
             toks = "untokenizable"
         expect.append(("CC", toks, cls, singles, ranges))
-        rx = regex.compile(cls, regex.VERSION1)
         spec = ivs_union([(c, c) for c in singles], [(min(a, b), max(a, b)) for a, b in ranges])
+        try:
+            rx = regex.compile(cls, regex.VERSION1)
+        except regex.error as e:
+            lines.append("CM " + args_ + f" {spec[0][0]}")
+            expect.append(("CM", f"raises regex.error: {e}", cls, spec[0][0], True))
+            continue
         for cp in sorted(boundaries(spec))[:24]:
             lines.append(f"CM {args_} {cp}")
             expect.append(("CM", "1" if rx.match(chr(cp)) else "0", cls, cp, ivs_contains(spec, cp)))
@@ -1034,7 +1045,8 @@ def _class_worker(args):
         elif ex[0] == "CM":
             if ex[1] != ("1" if ex[4] else "0"):
                 concrete.append({"what": "_optimize_char_class: the written class does not accept the union of its inputs",
-                                 "class": ex[2], "request": ln, "code_point": ex[3], "expected": ex[4], "observed": ex[1] == "1"})
+                                 "class": ex[2], "request": ln, "code_point": ex[3], "expected": ex[4],
+                                 "observed": ex[1] == "1" if ex[1] in "01" else ex[1]})
             if an != ex[1]:
                 corr.append({"request": ln, "impl": f"{ex[2]!r} accepts: {ex[1]}", "model": an})
         else:
@@ -1136,7 +1148,10 @@ def replay(out: Outcome, payload: dict) -> None:
         from pest.grammar.expressions.choice import _optimize_char_class
 
         cls = _optimize_char_class([chr(c) for c in payload["singles"]], [(chr(a), chr(b)) for a, b in payload["ranges"]])
-        obs = bool(regex.compile(cls, regex.VERSION1).match(chr(payload["code_point"])))
+        try:
+            obs = bool(regex.compile(cls, regex.VERSION1).match(chr(payload["code_point"])))
+        except regex.error as e:
+            obs = f"raises regex.error: {e}"
         if obs != payload["expected"]:
             out.violation({**payload, "observed": obs})
         return
